@@ -174,8 +174,7 @@ def _coverage(repo, rep):
               "selects the HTML defaults)", construct="lossy-hash",
               where=L.where(pdig), detail=str(lossy))
     pparse = repo.func("chameleon.zpt.template.PageTemplate.parse")
-    tt = " ".join(src(x) for x in ast.walk(pparse.node)
-                  if isinstance(x, ast.stmt))
+    tt = L.text(pparse.node)
     if "boolean_attributes is None" in tt:
         # collections are sorted only under 'is not None'
         ok = False
@@ -189,7 +188,7 @@ def _coverage(repo, rep):
                   where=L.where(pdig))
     # the key also covers body, class, filename, builtin names, versions
     d = repo.func(BT + "digest")
-    t = " ".join(src(s) for s in ast.walk(d.node) if isinstance(s, ast.stmt))
+    t = L.text(d.node)
     for need, what in (("sha.update(body.encode('utf-8', 'ignore'))",
                         "the template source"),
                        ("sha.update(class_name)", "the template class"),
@@ -199,13 +198,13 @@ def _coverage(repo, rep):
         rep.check(need in t, "R15.1", d.qualname, "the key covers %s" % what,
                   construct="base:" + what, where=L.where(d))
     pd = repo.func("chameleon.zpt.template.PageTemplate.digest")
-    t = " ".join(src(s) for s in ast.walk(pd.node) if isinstance(s, ast.stmt))
+    t = L.text(pd.node)
     rep.check("super().digest(body, names)" in t and
               "';'.join(names)" in t, "R15.1", pd.qualname,
               "the key covers the base key and the builtin names",
               construct="names", where=L.where(pd))
     ck = repo.func(BT + "cook")
-    t = " ".join(src(s) for s in ast.walk(ck.node) if isinstance(s, ast.stmt))
+    t = L.text(ck.node)
     rep.check("digest = self.digest(body, names)" in t and
               "self._cook(body, digest, names)" in t and
               "sorted(builtins_dict.items())" in t, "R15.1", ck.qualname,
@@ -307,7 +306,7 @@ def _store(repo, rep):
               "code in the package that creates or renames files",
               construct="other-writers", detail=str(others))
     # name derivation: final name is base + '.py' inside self.path
-    t = " ".join(src(s) for s in ast.walk(f.node) if isinstance(s, ast.stmt))
+    t = L.text(f.node)
     rep.check("name = os.path.join(self.path, base + '.py')" in t, "R15.2",
               site, "the final name is <cache dir>/<key>.py",
               construct="final-name", where=wh)
@@ -315,7 +314,7 @@ def _store(repo, rep):
 
 def _lookup(repo, rep):
     g = repo.func(LD + "ModuleLoader.get")
-    t = " ".join(src(s) for s in ast.walk(g.node) if isinstance(s, ast.stmt))
+    t = L.text(g.node)
     rep.check("path = os.path.join(self.path, filename)" in t and
               "if os.path.exists(path):" in t and
               "return self._load(base, path)" in t and "return None" in t and
@@ -331,7 +330,7 @@ def _lookup(repo, rep):
         src(body[1].finalbody[0]) == "release_lock()"
     rep.check(ok, "R15.3", ld.qualname, "loading runs under the same lock",
               construct="load-lock", where=L.where(ld))
-    t = " ".join(src(s) for s in ast.walk(ld.node) if isinstance(s, ast.stmt))
+    t = L.text(ld.node)
     rep.check("module = sys.modules.get(base)" in t and
               "sys.modules[base] = module" in t and
               t.index("loader.exec_module(module)") <
@@ -339,14 +338,14 @@ def _lookup(repo, rep):
               "a module is published in sys.modules only after it executed "
               "completely", construct="publish-after-exec", where=L.where(ld))
     ck = repo.func(BT + "_cook")
-    t = " ".join(src(s) for s in ast.walk(ck.node) if isinstance(s, ast.stmt))
+    t = L.text(ck.node)
     rep.check("self.loader.get(filename)" in t and
               "self.loader.build(source, filename)" in t and
               "filename = self._get_module_name(name)" in t, "R15.3",
               ck.qualname, "lookup and store use the same file name derived "
               "from the key", construct="same-name", where=L.where(ck))
     gm = repo.func("chameleon.template.BaseTemplateFile._get_module_name")
-    t = " ".join(src(s) for s in gm.node.body)
+    t = L.text(gm.node, body_only=True)
     rep.check("'{}_{}.py'.format(mangled, name)" in t, "R15.3", gm.qualname,
               "file templates prefix the key with the mangled file name",
               construct="file-module-name", where=L.where(gm))
